@@ -150,8 +150,8 @@ sp_ctrsv(char *uplo, char *trans, char *diag, SuperMatrix *L,
 		    for (iptr=istart+1; iptr < L_SUB_START(fsupc+1); ++iptr) {
 			irow = L_SUB(iptr);
 			++luptr;
-			cc_mult(&comp_zero, &x[fsupc], &Lval[luptr]);
-			c_sub(&x[irow], &x[irow], &comp_zero);
+			cc_mult(&temp, &x[fsupc], &Lval[luptr]);
+			c_sub(&x[irow], &x[irow], &temp);
 		    }
 		} else {
 #ifdef USE_VENDOR_BLAS
@@ -203,8 +203,8 @@ sp_ctrsv(char *uplo, char *trans, char *diag, SuperMatrix *L,
 		    c_div(&x[fsupc], &x[fsupc], &Lval[luptr]);
 		    for (i = U_NZ_START(fsupc); i < U_NZ_START(fsupc+1); ++i) {
 			irow = U_SUB(i);
-			cc_mult(&comp_zero, &x[fsupc], &Uval[i]);
-			c_sub(&x[irow], &x[irow], &comp_zero);
+			cc_mult(&temp, &x[fsupc], &Uval[i]);
+			c_sub(&x[irow], &x[irow], &temp);
 		    }
 		} else {
 #ifdef USE_VENDOR_BLAS
@@ -224,8 +224,8 @@ sp_ctrsv(char *uplo, char *trans, char *diag, SuperMatrix *L,
 		    	for (i = U_NZ_START(jcol); i < U_NZ_START(jcol+1); 
 				i++) {
 			    irow = U_SUB(i);
-			cc_mult(&comp_zero, &x[jcol], &Uval[i]);
-			c_sub(&x[irow], &x[irow], &comp_zero);
+			cc_mult(&temp, &x[jcol], &Uval[i]);
+			c_sub(&x[irow], &x[irow], &temp);
 		    	}
                     }
 		}
